@@ -187,7 +187,18 @@ def check(prop="C07", only=None):
     for r in runs.values():
         modes[r["mode"]] = modes.get(r["mode"], 0) + 1
     dry = [r for r in runs.values() if r["mode"] == "dry"]
+    # layer 2: the crash windows MintSteps predicts (exhaustive TLC run with a crash between any two calls) against the ones
+    # observed on the real mint, and the victims' call sequences validated against MintSteps
+    layer2 = None
+    if not only:
+        import steps
+        layer2 = steps.crash_windows(sd, keys)
+        layer2["victim_call_sequences"] = steps.dry_conformance(sd, scns, dry)
+        if not layer2["agree"]:
+            print("NOTE: crash windows of MintSteps and of the real mint differ (model drift or a changed window; not a verdict): %s" % json.dumps(
+                {k: {"model": sorted(v["model"]), "real_mint": sorted(v["real_mint"])} for k, v in layer2["per_request_kind"].items() if not v["agree"]}))
     cov = {
+        "layer2_crash_windows": layer2,
         "evaluations": len(runs), "distinct_nontrivial": len(runs) - len(dry),
         "rule": "one execution per (victim operation, fault kind in {crash, storage/LN error}, call index k); the call sequence of each "
                 "victim is measured by a dry run; distinct_nontrivial counts the fault executions (dry runs excluded)",
